@@ -33,7 +33,10 @@ pub fn gen_base(rng: &mut Rng) -> Scenario {
     sc.strict = rng.bool();
     sc.handlers = if rng.chance(2, 3) { wl::mutators(rng, false) } else { wl::observers(rng) };
     if rng.chance(1, 3) {
-        sc.handlers.push(HandlerSpec::End { ops: vec![wl::content(rng)] });
+        // one to three document-end handlers, each appending something
+        for _ in 0..rng.range(1, 3) {
+            sc.handlers.push(HandlerSpec::End { ops: vec![wl::content(rng)] });
+        }
     }
     if rng.chance(1, 4) {
         sc.joins = wl::random_joins(rng, &sc.handlers);
